@@ -46,6 +46,8 @@ pub struct Stats {
     pub switches: u64,
     pub signals: u64,
     pub stale: u64,
+    /// executions in which a write barrier took its second generation switch (the path added by the F6 repair)
+    pub reflip_executions: u64,
     pub max_decisions: u64,
     pub capped: bool,
     pub unexplored_jobs: u64,
@@ -78,6 +80,9 @@ impl Stats {
         self.switches += o.switches;
         self.signals += o.signals;
         self.stale += o.stale;
+        if o.reflips > 0 {
+            self.reflip_executions += 1;
+        }
         if o.interleaved {
             self.interleaved += 1;
             if self.digests_interleaved.len() < 2_000_000 {
@@ -97,6 +102,7 @@ impl Stats {
         self.switches += o.switches;
         self.signals += o.signals;
         self.stale += o.stale;
+        self.reflip_executions += o.reflip_executions;
         self.max_decisions = self.max_decisions.max(o.max_decisions);
         self.capped |= o.capped;
         self.unexplored_jobs += o.unexplored_jobs;
@@ -116,7 +122,7 @@ impl Stats {
         json!({
             "executions": self.executions, "states": self.states, "transitions": self.transitions,
             "interleaved": self.interleaved, "switches": self.switches, "signals": self.signals,
-            "stale": self.stale, "max_decisions": self.max_decisions, "capped": self.capped,
+            "stale": self.stale, "reflip_executions": self.reflip_executions, "max_decisions": self.max_decisions, "capped": self.capped,
             "unexplored_jobs": self.unexplored_jobs,
             "violating_executions": self.violating_executions,
             "diverged": self.diverged,
@@ -140,6 +146,7 @@ impl Stats {
             switches: g("switches"),
             signals: g("signals"),
             stale: g("stale"),
+            reflip_executions: g("reflip_executions"),
             max_decisions: g("max_decisions"),
             capped: v["capped"].as_bool().unwrap_or(false),
             unexplored_jobs: g("unexplored_jobs"),
